@@ -164,22 +164,53 @@ theorem lk_body (fuel : Nat) (rev : Nat → Nat) (priv0 : Loc → Option Val) (i
       refine ⟨_, lr_nil _ _, ?_⟩
       simp [Ctl.goesOn, WalkR, hit, hpr]
       exact ⟨x0, hwk', by simp [lwalkPos, hwk, hxrh, hgt]⟩
-    · have hpos : lwalkPos rev x0 n = ({ x0 with cur := n, pc := .wNext }, .unit) := by
-        simp [lwalkPos, hn, hxrh, hgt]
+    · obtain ⟨x, hx⟩ : ∃ x : Thr, x = { x0 with cur := n, pc := .wNext } := ⟨_, rfl⟩
+      have hpos : lwalkPos rev x0 n = (x, .unit) := by
+        rw [hx]; simp [lwalkPos, hn, hxrh, hgt]
+      have hxpc : x.pc = .wNext := by rw [hx]
+      have hxcur : x.cur = n := by rw [hx]
+      have hxwk : x.wk = .lookup := by rw [hx]; exact hwk
+      have hxrh' : x.rh = rh := by rw [hx]; exact hxrh
+      have hxky' : x.ky = ky := by rw [hx]; exact hxky
       rw [hpos] at hO ⊢
+      clear hpos hx hwk hxrh hxky hwk' x0
       cases inp with
       | nil =>
         lexec [lkBody, firstLoop, Gen.Src.«lfht.cds_lfht_lookup», call_is_end, pureCall, bind1, encP_pos hn]
         exact ⟨_, lr_nil _ _, by simp [Ctl.goesOn, WalkR]⟩
       | cons v rest =>
-        obtain ⟨l, hl, hrest⟩ := hO (by simp [active, ofPair])
-        simp only [obsLabel, ofPair] at hl
+        obtain ⟨l, hl, hrest⟩ := hO (by simp [active, ofPair, hxpc])
+        simp only [obsLabel, ofPair, hxpc] at hl
         cases hd : decW v with
         | none => simp [hd] at hl
         | some w =>
           have hv := encW_of_decW hd; subst hv
-          simp only [decW_encW, Option.map] at hl
+          simp only [decW_encW, Option.map, hxcur] at hl
           cases hl
+          -- the word is skipped without calling `match`
+          have hskip : needsMatch rev x w = false →
+              ∃ o, exec fuel lkBody env (encW w :: rest) = .ok o ∧ ∃ ls', lr rev (ofPair (x, .unit)) o.events = some ls' ∧
+                (if o.ctl.goesOn then WalkI rev priv0 it .lookup rh ky o.env o.inp ls'
+                 else WalkR rev priv0 it o.ctl o.env o.inp ls') := by
+            intro hnm
+            have hfn : foundNoMatch x w = false := by simp [foundNoMatch, hxwk]
+            have hs1 : lstep rev (ofPair (x, .unit)) (.ldNext n w 1) =
+                some (ofPair (lwalkPos rev { x with wnx := w } w.ptr)) := by
+              simp [lstep, ofPair, hxpc, hxcur, hnm, hfn]
+            have hO1 := hrest _ hs1
+            have hfin : ∀ env' : Env, env'.priv = priv0 → env'.vars "iter" = some (.ptr (.obj it)) →
+                env'.vars "reverse_hash" = some (.int rh) → env'.vars "key" = some (.int ky) →
+                env'.vars "node" = some (encP w.ptr) →
+                ∃ ls', lr rev (ofPair (x, .unit)) [Event.ld ((Loc.obj n).field "next") (encW w) 1] = some ls' ∧
+                  WalkI rev priv0 it .lookup rh ky env' rest ls' := by
+              intro env' h1 h2 h3 h4 h5
+              refine ⟨_, by simp [lr, lrun, absEv, hs1], h1, h2, h3, h4, w.ptr, { x with wnx := w }, h5, hxwk, hxrh', hxky', rfl, hO1⟩
+            simp only [needsMatch, hxwk, hxcur, hxrh'] at hnm
+            by_cases hr : w.rem = true <;> by_cases hb : w.bkt = true <;> by_cases he : rev n = rh <;>
+              (try simp [hr, hb, he] at hnm) <;>
+              lexec [lkBody, firstLoop, Gen.Src.«lfht.cds_lfht_lookup», call_is_end, call_clear_flag, call_is_removed,
+                call_is_bucket, pureCall, bind1, encP_pos hn] <;>
+              exact hfin _ (by simp [hpr]) (by simp [hit]) (by simp [hrh]) (by simp [hky]) (by simp)
           trace_state
           sorry
 
